@@ -76,7 +76,7 @@ Definition sconfig := list partition.
 Definition emptyTemplate : template := mkTemplate 0 [] None None.
 Definition is_some {A} (o : option A) : bool := match o with Some _ => true | None => false end.
 Definition is_none {A} (o : option A) : bool := match o with Some _ => false | None => true end.
-Definition is_nil {A} (l : list A) : bool := match l with [] => true | _ => false end.
+Definition nilb {A} (l : list A) : bool := match l with [] => true | _ => false end.
 
 (* ---- structural equality (used to compare the validated configuration of model and implementation
         and for reflect.DeepEqual of limit lists) ---- *)
